@@ -455,10 +455,9 @@ impl BtpInner {
             .session
             .is_ack_due(Instant::now(), self.ack_timeout_secs as _)
         {
-            let len = self.session.prep_tx_data(&[], &mut 0, buf)?;
-            assert!(len > 0);
-
-            return Ok(len);
+            // NOTE: Might be 0 if our send window is closed; the ACK will then go out
+            // once the peer had acknowledged what we have sent
+            return self.session.prep_tx_data(&[], &mut 0, buf);
         }
 
         Ok(0)
